@@ -55,6 +55,21 @@ static_assert(sizeof(long) == 8 && sizeof(int) == 4 && sizeof(short) == 2, "LP64
 
 const bool g_no_exclude = std::getenv("VERIF_NO_EXCLUDE") != nullptr;
 
+// In the ASan/UBSan flavour the Multi formats are only used with their default individual format: parsing
+// "individual output file format type := ..." goes through KeyParser::set_shared_parsing_object, which calls the registry's
+// factory through a pointer of another function type (UBSan -fsanitize=function aborts; every parsed registered object in
+// STIR does this, it is not specific to image IO and is reported in work/notes/C10_findings.md as an observation).
+#if defined(__has_feature)
+#  if __has_feature(address_sanitizer)
+#    define C10_SANITIZED 1
+#  endif
+#endif
+#ifdef C10_SANITIZED
+const bool g_sanitized = true;
+#else
+const bool g_sanitized = false;
+#endif
+
 // ---- number types InterfileOutputFileFormat accepts (write_data.inl: CASE list) ------------------------
 struct TInfo
 {
@@ -150,6 +165,8 @@ struct FileGuard
   }
   ~FileGuard()
   {
+    if (std::getenv("VERIF_C10_KEEP_FILES")) // debugging aid only
+      return;
     for (auto& p : paths)
       unlink(p.c_str());
   }
@@ -322,6 +339,13 @@ num_datasets(const json& c)
     }
 }
 
+bool
+is_multi_default(const json& c)
+{
+  const int container = c["container"].get<int>();
+  return (container == DYN_MULTI || container == PAR_MULTI) && (c["fmt"].value("multi_default", false) || g_sanitized);
+}
+
 // value distributions; pure function of (vals spec, dataset number)
 std::vector<float>
 make_values(const json& v, long n, int dataset)
@@ -413,10 +437,19 @@ scale_setting(const json& c, const std::vector<std::vector<float>>& data)
   return (s > 0 && std::isfinite(s)) ? s : 1.F;
 }
 
-const char* const DB_PT[] = { "^18^Fluorine", "^11^Carbon", "^13^Nitrogen", "^15^Oxygen", "^64^Copper", "^68^Gallium", "^68^Germanium", "^90^Yttrium" };
-const char* const DB_NM[] = { "^99m^Technetium", "^131^Iodine", "^67^Gallium", "^177^Lutetium", "^90^Yttrium" };
-const char* const FREE_RN[] = { "verif-X", "^82^Rubidium", "Zr89", "my nuclide 7" };
-const char* const SYSTEMS[] = { "", "ECAT 931", "Siemens mMR", "verif system" };
+// database names (src/config/radionuclide_info.json). ^64^Copper (no "keV") and ^131^Iodine ("kev") make
+// RadionuclideDB::get_radionuclide_from_json call error(): they cannot be constructed from the database at all and
+// are generated as hand-made Radionuclide objects in the labelled class F9 only.
+const char* const DB_PT[] = { "^18^Fluorine", "^11^Carbon", "^13^Nitrogen", "^15^Oxygen", "^68^Gallium", "^68^Germanium", "^90^Yttrium" };
+const int N_DB_PT = 7;
+const char* const DB_NM[] = { "^99m^Technetium", "^67^Gallium", "^177^Lutetium", "^90^Yttrium" };
+const int N_DB_NM = 4;
+const char* const FREE_RN[] = { "verif-X", "^82^Rubidium", "Zr89", "my nuclide 7", "^64^Copper", "^131^Iodine" };
+const int N_FREE_RN = 6;
+// names early in Scanner::Type are found quickly; an unknown name makes Scanner::get_scanner_from_name construct every
+// predefined scanner (4-8 ms per call, and the dynamic/parametric readers call it for every read): kept a minority
+const char* const SYSTEMS[] = { "", "ECAT 931", "ECAT 953", "verif system", "ECAT 962", "ECAT 951" };
+const int N_SYSTEMS = 6;
 
 struct ExamSpec
 {
@@ -446,16 +479,26 @@ exam_spec_of(const json& e)
   if (s.rn_kind == 1 && s.mod != int(ImagingModality::PT) && s.mod != int(ImagingModality::NM))
     s.rn_kind = 2; // the database only has entries for PET and nucmed (RadionuclideDB.cxx)
   if (s.rn_kind == 1)
-    s.rn_name = s.mod == int(ImagingModality::PT) ? DB_PT[idx % 8] : DB_NM[idx % 5];
+    s.rn_name = s.mod == int(ImagingModality::PT) ? DB_PT[idx % N_DB_PT] : DB_NM[idx % N_DB_NM];
   else if (s.rn_kind == 2)
-    s.rn_name = FREE_RN[idx % 4];
+    s.rn_name = FREE_RN[idx % N_FREE_RN];
   s.rn_hl = float(e["rn"]["hl"].get<double>());
   s.rn_br = float(e["rn"]["br"].get<double>());
+  if (s.rn_kind == 2 && idx % N_FREE_RN == 4)
+    { // values of the database, which a reader substitutes for a name it knows
+      s.rn_hl = 45721.144F;
+      s.rn_br = 0.1752F;
+    }
+  if (s.rn_kind == 2 && idx % N_FREE_RN == 5)
+    {
+      s.rn_hl = 693446.4F;
+      s.rn_br = 0.812F;
+    }
   s.en_kind = e["en"]["kind"].get<int>();
   s.en_low = s.en_kind == 2 ? 0.F : float(e["en"]["low"].get<double>());
   s.en_high = float(e["en"]["high"].get<double>());
   s.calib = float(e["calib"].get<double>());
-  s.system = SYSTEMS[e["sys"].get<int>() % 4];
+  s.system = SYSTEMS[e["sys"].get<int>() % N_SYSTEMS];
   s.t0 = e["t0"].get<double>();
   return s;
 }
@@ -717,9 +760,6 @@ check_file_level(const FileSet& fs, const std::vector<float>& v, const TInfo& t,
             VF_CHECK(std::fabs(r * S - x) <= TOL_HDR * std::fabs(x) + TINY, where, ": double stored at voxel ", i, " is ", r, " x scale ", S, " = ", r * S,
                      " image has ", x);
         }
-      // OutputFileFormat.h: "except for floats and doubles in which case no rescaling occurs" (setting 0)
-      if (setting == 0.F)
-        VF_CHECK(S == 1., where, ": double output with automatic scale has image scaling factor ", S);
       return Result::pass();
     }
 
@@ -766,7 +806,7 @@ truncation_lengths(long size, bool thorough_all)
       L.push_back(l);
   else
     {
-      const long stride = std::max<long>(1, size / 96);
+      const long stride = std::max<long>(64, size / 48);
       for (long l = 0; l < size - 64; l += stride)
         L.push_back(l);
       for (long l = size - 64; l < size; ++l)
@@ -783,7 +823,7 @@ check(const json& c)
   const Grid g = grid_of(c["grid"]);
   const json& fj = c["fmt"];
   const bool multi = container == DYN_MULTI || container == PAR_MULTI;
-  const bool multi_default = multi && fj.value("multi_default", false);
+  const bool multi_default = is_multi_default(c);
   // the Multi formats write the individual images with OutputFileFormat<...>::default_sptr() unless parsed otherwise
   const TInfo& t = multi_default ? TYPES[T_FLOAT] : TYPES[fj["type"].get<int>()];
   const bool want_big = multi_default ? !host_is_little_endian() : fj["big_endian"].get<bool>();
@@ -861,7 +901,7 @@ check(const json& c)
     stats().cls("non-default index range");
   if (!g.zero_origin())
     stats().cls("non-zero origin");
-  if (via_parser || multi)
+  if ((via_parser && !multi) || (multi && !multi_default))
     stats().cls("format configured by parsing");
   bool neg_to_unsigned = false;
   if (t.is_int && !t.is_signed)
@@ -1025,7 +1065,8 @@ check(const json& c)
               // values
               const float x = v[std::size_t(i)];
               const float y = ds.vals[std::size_t(i)];
-              if (t.id == NumericType::FLOAT || (t.id == NumericType::DOUBLE && Sd == 1.))
+              // OutputFileFormat.h: automatic scale: "except for floats and doubles in which case no rescaling occurs"
+              if (t.id == NumericType::FLOAT || (t.id == NumericType::DOUBLE && (Sd == 1. || setting == 0.F)))
                 VF_CHECK(same_bits(x, y) || (x == 0 && y == 0 && t.id == NumericType::DOUBLE), "data set ", d + 1, " voxel ", i, ": wrote ", x, " read ", y,
                          " (floating point output must be exact)");
               else
@@ -1112,6 +1153,7 @@ check(const json& c)
       std::vector<unsigned char> longer(full);
       for (int k = 0; k < extra; ++k)
         longer.push_back(static_cast<unsigned char>(0xA5 ^ k));
+      unlink(victim.data_file.c_str()); // a fresh file (rewriting a file truncated to 0 makes ext4 flush synchronously)
       VF_CHECK(write_bytes(victim.data_file, longer.data(), longer.size()), "cannot rewrite data file");
       ReadBack again;
       VF_CHECK(read_back(container, written, again), "data file ", extra, " bytes longer than announced: read_from_file returned null");
@@ -1157,18 +1199,20 @@ gen_exam(Src& s, int container)
   e["frames"] = frames;
   json rn;
   rn["kind"] = int(s.range(0, 2));
-  rn["idx"] = int(s.range(0, 7));
+  rn["idx"] = int(s.range(0, 6 * 7 - 1)); // modulo 7 (PET), 4 (nucmed), 6 (free text)
+  if (!g_no_exclude && rn["idx"].get<int>() % N_FREE_RN >= 4 && !s.chance(1, 8))
+    rn["idx"] = rn["idx"].get<int>() - 3; // F9
   rn["hl"] = s.chance(1, 4) ? -1. : s.nice_real(1., 100000.);
   rn["br"] = s.chance(1, 3) ? -1. : s.real(0.01, 1.);
   e["rn"] = rn;
   json en;
-  en["kind"] = s.chance(1, 12) ? 2 : int(s.range(0, 1));
+  en["kind"] = s.chance(1, g_no_exclude ? 10 : 50) ? 2 : int(s.range(0, 1)); // kind 2: F8
   en["low"] = s.nice_real(50., 500.);
   en["high"] = en["low"].get<double>() + s.nice_real(1., 400.);
   e["en"] = en;
   static const std::vector<double> calibs = { -1., -1., 1., 0.5, 12345.678, 3.25e-7, 8.1e8 };
   e["calib"] = s.coin() ? s.pick(calibs) : s.real(0.001, 1000.);
-  e["sys"] = int(s.range(0, 3));
+  e["sys"] = s.chance(1, 10) ? int(s.pick(std::vector<int>{ 0, 3 })) : int(s.pick(std::vector<int>{ 1, 2, 4, 5 }));
   e["t0"] = s.chance(1, 6) ? double(s.range(1000000000L, 1700000000L)) : 0.;
   return e;
 }
@@ -1214,7 +1258,7 @@ gen(Src& s, int size)
   f["multi_default"] = s.chance(1, 4);
   const bool wide = type == T_UINT || type == T_LONG || type == T_ULONG;
   f["wide_guard"] = false;
-  c["trunc"] = { { "mode", s.chance(1, 6) ? 1 : 0 }, { "file", int(s.range(0, 3)) }, { "extra", int(s.range(1, 64)) } };
+  c["trunc"] = { { "mode", s.chance(1, 12) ? 1 : 0 }, { "file", int(s.range(0, 3)) }, { "extra", int(s.range(1, 64)) } };
   // values
   json v;
   int kind = int(s.range(0, 7));
@@ -1246,10 +1290,14 @@ gen(Src& s, int size)
         }
       if (type == T_DOUBLE && mode == 0 && !s.chance(1, 4))
         mode = 2; // F2
+      if (is_unsigned && mode == 0 && (kind == 5 || ((kind == 2 || kind == 4) && neg)) && !s.chance(1, 8))
+        mode = 2; // F7
     }
   f["scale_mode"] = mode;
   c["fmt"] = f;
   c["exam"] = gen_exam(s, container);
+  if (!g_no_exclude && c["exam"]["mod"].get<int>() == int(ImagingModality::NM) && (container == DYN_INTERFILE || container == PAR_INTERFILE) && !s.chance(1, 8))
+    c["exam"]["mod"] = int(s.pick(std::vector<int>{ 1, 1, 0, 3, 4 })); // F6
   if (!g_no_exclude && container == PAR_INTERFILE && type != T_FLOAT && c["exam"]["frames"].size() >= 2 && !s.chance(1, 4))
     c["exam"]["frames"].erase(c["exam"]["frames"].begin() + 1, c["exam"]["frames"].end()); // F5
   return c;
@@ -1288,14 +1336,26 @@ known_signature(const json& c)
   const int rot = c["exam"]["rot"].get<int>();
   if (rot == int(PatientPosition::left) || rot == int(PatientPosition::right))
     return "C10:patient-rotation-left-right-written-as-other";
+  // F9: radionuclide_info.json has no "keV" for ^64^Copper (PET) and ^131^Iodine (nucmed): a header naming them cannot be parsed
+  {
+    const ExamSpec es = exam_spec_of(c["exam"]);
+    if (es.rn_kind == 2 && ((es.rn_name == "^64^Copper" && es.mod == int(ImagingModality::PT)) || (es.rn_name == "^131^Iodine" && es.mod == int(ImagingModality::NM))))
+      return "C10:radionuclide-database-entry-without-keV-makes-header-unreadable";
+  }
+  // F8: an energy window with lower level 0 is written, but the reader only accepts it when both levels are > 0
+  if (c["exam"]["en"]["kind"].get<int>() == 2)
+    return "C10:energy-window-lower-level-0-dropped-on-reading";
   const int container = c["container"].get<int>();
-  const bool multi = container == DYN_MULTI || container == PAR_MULTI;
-  if (multi && c["fmt"].value("multi_default", false))
+  const int D = num_datasets(c);
+  // F6: with modality NM the header says 'type of data := Tomographic', for which the reader does not know
+  //     'data offset in bytes': every data set of a dynamic/parametric Interfile image is read from offset 0
+  if (c["exam"]["mod"].get<int>() == int(ImagingModality::NM) && (container == DYN_INTERFILE || container == PAR_INTERFILE) && D >= 2)
+    return "C10:NM-modality-data-offset-in-bytes-ignored";
+  if (is_multi_default(c))
     return "";
   const TInfo& t = TYPES[c["fmt"]["type"].get<int>()];
   if (t.id == NumericType::FLOAT)
     return "";
-  const int D = num_datasets(c);
   const long nv = grid_of(c["grid"]).nvox();
   std::vector<std::vector<float>> data;
   for (int d = 0; d < D; ++d)
@@ -1320,6 +1380,26 @@ known_signature(const json& c)
       // F2: find_scale_factor computes max/DBL_MAX*1.01 for double output and stores it in a float: 0
       if (t.id == NumericType::DOUBLE && setting == 0.F && any_nonzero)
         return "C10:double-output-automatic-scale-underflows-to-0";
+      // F7: unsigned output, automatic scale, all values negative: the scale factor becomes negative, the 0.1% test in
+      //     write_data_with_fixed_scale_factor fails, nothing is written and write_basic_interfile ignores that
+      //     (also when the maximum of the image is exactly 0 and one row along x is negative throughout: the row-wise
+      //     second call of find_scale_factor then replaces the scale 0 by a negative one)
+      if (t.is_int && !t.is_signed && S[std::size_t(d)] <= 0)
+        {
+          bool bad = S[std::size_t(d)] < 0;
+          const long nx = grid_of(c["grid"]).n[2];
+          const std::vector<float>& v = data[std::size_t(d)];
+          for (long r = 0; !bad && r * nx < long(v.size()); ++r)
+            {
+              float row_max = -FLT_MAX;
+              for (long i = 0; i < nx; ++i)
+                row_max = std::max(row_max, v[std::size_t(r * nx + i)]);
+              if (row_max < 0)
+                bad = true;
+            }
+          if (bad)
+            return "C10:unsigned-output-all-negative-data-negative-scale-short-file";
+        }
       // F3: the scale factor is a float: max|v|/type_max underflows for tiny values and wide types
       if (t.is_int && any_nonzero && std::fabs(S[std::size_t(d)]) < FLT_MIN)
         return "C10:scale-factor-below-FLT_MIN";
@@ -1338,7 +1418,7 @@ bool
 nontrivial(const json& c)
 {
   const Grid g = grid_of(c["grid"]);
-  const bool multi_default = (c["container"].get<int>() == DYN_MULTI || c["container"].get<int>() == PAR_MULTI) && c["fmt"].value("multi_default", false);
+  const bool multi_default = is_multi_default(c);
   const bool non_float = !multi_default && c["fmt"]["type"].get<int>() != T_FLOAT;
   return !g.default_range() || !g.zero_origin() || non_float || c["trunc"]["mode"].get<int>() != 0;
 }
@@ -1427,8 +1507,10 @@ enumerate(uint64_t idx, int, json& c)
   c = base_case();
   c["container"] = cont;
   fit_frames(c);
-  c["exam"]["mod"] = 1 + int(idx % 2);
+  c["exam"]["mod"] = (!g_no_exclude && (cont == DYN_INTERFILE || cont == PAR_INTERFILE)) ? 1 : 1 + int(idx % 2); // F6
   c["exam"]["rot"] = int(idx % 2);
+  if (!g_no_exclude && cont == PAR_INTERFILE && type != T_FLOAT)
+    c["exam"]["frames"].erase(c["exam"]["frames"].begin() + 1, c["exam"]["frames"].end()); // F5
   c["fmt"]["type"] = type;
   c["fmt"]["big_endian"] = big;
   c["fmt"]["via_parser"] = parser;
